@@ -103,6 +103,9 @@ class Describer:
             if kind == "range":
                 lo, hi = ex(a), ex(c)
                 if lo is None or hi is None:
+                    pr = self.param_relative_range(args[1])
+                    if pr is not None:
+                        return ("subp", base, pr[0], pr[1], pr[2])
                     return ("sub", base, lo, hi)
                 return compose(base, lo, hi)
             if kind == "from":
@@ -126,6 +129,28 @@ class Describer:
             s = self.slice_of(args[0], depth + 1)
             return ("bswap", s) if s else None
         return None
+
+    def param_offset(self, op):
+        """(j, c) when the integer operand is `by-value parameter j + c` (c >= 0)."""
+        lf = self.ev.linform(self.ev.expr_key(op, []))
+        if lf is None or len(lf[0]) != 1 or lf[1] < 0:
+            return None
+        (atom, coeff), = lf[0].items()
+        if coeff != 1 or atom[0] != "l" or not (0 < atom[1] <= self.fn["argc"]):
+            return None
+        if self.f.ty(self.fn["locals"][atom[1]][0]).get("k") != "uint":
+            return None
+        return atom[1], int(lf[1])
+
+    def param_relative_range(self, rop):
+        """(j, lo_c, hi_c) for a range `off + lo_c .. off + hi_c` whose bounds are one by-value parameter plus constants."""
+        ro = self.ev.range_operands(rop)
+        if ro is None:
+            return None
+        a, c = self.param_offset(ro[1]), self.param_offset(ro[2])
+        if a is None or c is None or a[0] != c[0] or c[1] < a[1]:
+            return None
+        return a[0], a[1], c[1]
 
     def tuple_field_slice(self, l, fld, depth):
         d = self.b.single_def(l)
@@ -257,6 +282,18 @@ class Describer:
         if S[0] == "sub":
             s = self.subst_slice(S[1], args, depth)
             return ("sub", s, S[2], S[3]) if s else None
+        if S[0] == "subp":
+            s = self.subst_slice(S[1], args, depth)
+            j = S[2] - 1
+            if s is None or j >= len(args):
+                return None
+            iv = self.ev.op_ival(args[j])
+            if iv is not None and iv[0] == iv[1] and iv[0] != INF:
+                return compose(s, int(iv[0]) + S[3], int(iv[0]) + S[4])
+            po = self.param_offset(args[j])
+            if po is not None:
+                return ("subp", s, po[0], po[1] + S[3], po[1] + S[4])
+            return ("sub", s, None, None)
         return S
 
     def subst_value(self, D, args, depth=0):
@@ -287,7 +324,7 @@ class Describer:
             for x in D[2]:
                 if x is None:
                     na.append(None)
-                elif x[0] in ("p", "l", "bswap", "sub"):
+                elif x[0] in ("p", "l", "bswap", "sub", "subp"):
                     na.append(self.subst_slice(x, args, depth))
                 else:
                     na.append(self.subst_value(x, args, depth))
@@ -308,7 +345,7 @@ def param_rooted(S):
         return False
     if S[0] == "p":
         return True
-    if S[0] in ("bswap", "sub"):
+    if S[0] in ("bswap", "sub", "subp"):
         return param_rooted(S[1])
     return False
 
@@ -345,6 +382,9 @@ def render_slice(S, fn):
         return "bswap(%s)" % render_slice(S[1], fn)
     if S[0] == "sub":
         return "%s[%s..%s]" % (render_slice(S[1], fn), "?" if S[2] is None else S[2], "?" if S[3] is None else S[3])
+    if S[0] == "subp":
+        n = fn["locals"][S[2]][1] or "_%d" % S[2]
+        return "%s[%s+%d..%s+%d]" % (render_slice(S[1], fn), n, S[3], n, S[4])
     return "?"
 
 
@@ -374,6 +414,6 @@ def render_value(D, fn):
 def render_arg(x, fn):
     if x is None:
         return "?"
-    if x[0] in ("p", "l", "bswap", "sub"):
+    if x[0] in ("p", "l", "bswap", "sub", "subp"):
         return render_slice(x, fn)
     return render_value(x, fn)
